@@ -192,7 +192,11 @@ def execute(sc, ctx):
         return
     for src in (wa, wb):
         dst_parent = ctx.subdir()
-        dst = os.path.join(dst_parent, "w", "relocated [copy] here" if src is wb else "relocated here", src.spec["rootname"])
+        # (the copy's own folder may be called anything at its new place, also like a history folder)
+        new_name = src.spec["rootname"]
+        if core.h64(sc["world"].get("env_seed", 1), "relocated-name", src is wb) % 4 == 0:
+            new_name = ["ascmhl", ".DS_Store", "ASCMHL"][core.h64(sc["world"].get("env_seed", 1), "rn") % 3]
+        dst = os.path.join(dst_parent, "w", "relocated [copy] here" if src is wb else "relocated here", new_name)
         os.makedirs(os.path.dirname(dst))
         core.copy_world_tree(src.root, dst)
         wc = core.World.__new__(core.World)
